@@ -82,7 +82,7 @@ func (l *TCP) Serve(establish EstablishFn) {
 
 		if atomic.LoadUint32(&l.end) == 0 {
 			go func() {
-				err = establish(l.id, conn)
+				err := establish(l.id, conn) // own variable: the accept loop keeps using its err
 				if err != nil {
 					l.log.Warn("", "error", err)
 				}
